@@ -13,6 +13,8 @@ Kinds (exactly the classes named in the property statement):
 Oracle: an exception is raised (type not prescribed) and the value of every
 object that existed before the step, and the bytes of its extent, are unchanged.
 """
+import numpy as np
+
 from . import model as M, typegen
 from .core import exc_sig, quarantined
 
@@ -488,7 +490,6 @@ def run(step):
             elif kind == "scalar_sequence":
                 if w.schema[t]["k"] != "sc" or not path:
                     raise Skip()
-                import numpy as np
 
                 vals = [M.scalar_py(w.schema[t]["t"], v) for v in op["values"]]
                 py = np.array(vals, dtype=typegen.SC_DTYPE[w.schema[t]["t"]]) if op.get("as_nd") else vals
